@@ -26,6 +26,9 @@ type Case struct {
 	Entries []string `json:"entries,omitempty"`
 	Variant string   `json:"variant,omitempty"` // layout: consistent | stale-digest ; plugin: stdout | stderr ; envelope: signed | resigned
 	Matrix  *Tuple   `json:"matrix,omitempty"`
+	// BigInput: the untrusted input of the case is larger than 64 KiB although Input is not (the plugin produces it):
+	// the absolute allocation ceiling of small inputs does not apply
+	BigInput bool `json:"big_input,omitempty"`
 }
 
 // Tuple is one cell of the configuration matrix.
@@ -43,10 +46,19 @@ type Tuple struct {
 	Attr     string `json:"extended_attribute"` // none | str-crit | str-noncrit | int-crit | int-noncrit
 	Artifact string `json:"artifact"`           // matching | mismatching (the presented descriptor / blob is not the signed one)
 	Meta     string `json:"user_metadata"`      // none | satisfied | unsatisfied
+	// timestamp dimensions (their own product, see timestampCases)
+	TS       string `json:"timestamp,omitempty"`                       // none | valid | unrelated-tsa | wrong-imprint | garbage
+	TSAStore bool   `json:"tsa_trust_store,omitempty"`                 // the statement lists a tsa: trust store
+	TSVal    string `json:"timestamping_revocation_validator,omitempty"` // default | supplied
+	VerifyTS string `json:"verify_timestamp,omitempty"`                // "" | always | afterCertExpiry
 }
 
 func (t Tuple) String() string {
-	return fmt.Sprintf("%s/%s/%s/%s@%s/%s/%s/plugin=%v/attr=%s/%s/artifact=%s/metadata=%s", t.Cons, t.PM, t.Rev, t.Level, t.Place, t.Entry, t.Sig, t.Plug, t.Attr, t.Ref, t.Artifact, t.Meta)
+	s := fmt.Sprintf("%s/%s/%s/%s@%s/%s/%s/plugin=%v/attr=%s/%s/artifact=%s/metadata=%s", t.Cons, t.PM, t.Rev, t.Level, t.Place, t.Entry, t.Sig, t.Plug, t.Attr, t.Ref, t.Artifact, t.Meta)
+	if t.TS != "" {
+		s += fmt.Sprintf("/timestamp=%s/tsa-store=%v/ts-validator=%s/verifyTimestamp=%s", t.TS, t.TSAStore, t.TSVal, t.VerifyTS)
+	}
+	return s
 }
 
 var (
@@ -85,7 +97,7 @@ func matrixCases(thorough bool) []Case {
 									// quick crosses the three extra dimensions with one revocation option (they do not meet: revocation
 									// is decided on the certificate chain alone); thorough with all three
 									if !wide || (s != "jws" && s != "cose") || (!thorough && rv != "validator") {
-										add(Tuple{c, pm, rv, lv, pl, e, s, plug, ref, "none", "matching", "none"})
+										add(Tuple{Cons: c, PM: pm, Rev: rv, Level: lv, Place: pl, Entry: e, Sig: s, Plug: plug, Ref: ref, Attr: "none", Artifact: "matching", Meta: "none"})
 										continue
 									}
 									for _, at := range attrKinds {
@@ -94,14 +106,14 @@ func matrixCases(thorough bool) []Case {
 										}
 										for _, art := range artifacts {
 											for _, md := range metadatas {
-												add(Tuple{c, pm, rv, lv, pl, e, s, plug, ref, at, art, md})
+												add(Tuple{Cons: c, PM: pm, Rev: rv, Level: lv, Place: pl, Entry: e, Sig: s, Plug: plug, Ref: ref, Attr: at, Artifact: art, Meta: md})
 											}
 										}
 									}
 								}
 							}
 							for _, s := range bareSigs {
-								add(Tuple{c, pm, rv, lv, pl, e, s, false, ref, "none", "matching", "none"})
+								add(Tuple{Cons: c, PM: pm, Rev: rv, Level: lv, Place: pl, Entry: e, Sig: s, Plug: false, Ref: ref, Attr: "none", Artifact: "matching", Meta: "none"})
 							}
 						}
 						for _, e := range ociEntries {
@@ -136,6 +148,51 @@ var nilArgCases = []string{
 	"registry.Repository.FetchSignatureBlob:zero-descriptor", "registry.Repository.ListSignatures:zero-descriptor",
 }
 
+// timestampCases: options that each work alone must work together. Revocation option x timestamping revocation
+// validator (default / supplied) x tsa trust store in the statement x verifyTimestamp option x countersignature kind,
+// crossed with construction, level, entry point and format.
+func timestampCases() []Case {
+	var out []Case
+	for _, c := range constructions {
+		for _, rv := range revocations {
+			for _, tv := range []string{"default", "supplied"} {
+				for _, lv := range levels {
+					for _, store := range []bool{false, true} {
+						for _, vt := range []string{"", "always", "afterCertExpiry"} {
+							for _, ts := range timestampKinds {
+								for _, s := range []string{"jws", "cose"} {
+									for _, e := range append(append([]string{}, ociEntries...), blobEntries...) {
+										ref, place := "digest", "oci-wildcard"
+										if e == "verifier.VerifyBlob" || e == "notation.VerifyBlob" {
+											ref, place = "", "blob-named"
+										}
+										t := Tuple{Cons: c, PM: "nil", Rev: rv, Level: lv, Place: place, Entry: e, Sig: s, Ref: ref, Attr: "none", Artifact: "matching", Meta: "none",
+											TS: ts, TSAStore: store, TSVal: tv, VerifyTS: vt}
+										out = append(out, Case{Family: "config-matrix", Kind: e, Label: t.String(), Class: e + ":" + c + ":" + lv + "@" + place, Matrix: &t})
+									}
+								}
+							}
+						}
+					}
+				}
+			}
+		}
+	}
+	return out
+}
+
+// oversizedPluginCases: a plugin whose stdout / stderr is far larger than any answer, delivered through the pipe in
+// the usual pieces. The allocation of the call must not keep growing with the size of the output.
+func oversizedPluginCases() []Case {
+	var out []Case
+	for _, cmd := range protoCommands {
+		for _, ch := range []string{"stdout", "stderr"} {
+			out = append(out, Case{Family: "oversized-plugin-output", Kind: cmd, Variant: ch, Label: cmd + "/" + ch, Class: ch, BigInput: true})
+		}
+	}
+	return out
+}
+
 // readerCases: the way the caller's reader delivers the blob to notation.VerifyBlob must not matter.
 func readerCases() []Case {
 	var out []Case
@@ -144,7 +201,7 @@ func readerCases() []Case {
 			for _, s := range []string{"jws", "cose"} {
 				for _, art := range artifacts {
 					for _, md := range metadatas {
-						t := Tuple{"both", "scripted", "validator", lv, "blob-named", "notation.VerifyBlob", s, false, "", "none", art, md}
+						t := Tuple{Cons: "both", PM: "scripted", Rev: "validator", Level: lv, Place: "blob-named", Entry: "notation.VerifyBlob", Sig: s, Plug: false, Ref: "", Attr: "none", Artifact: art, Meta: md}
 						out = append(out, Case{Family: "reader-seam", Kind: rk, Label: rk + "/" + t.String(), Class: rk, Matrix: &t})
 					}
 				}
